@@ -14,11 +14,15 @@
 (*   --walker-root DIR [...]  one or more start directories; printed path = root argument joined with the relative    *)
 (*           path, without a leading "./"                                                                             *)
 (* Everything the documentation does not fix is marked  \* CODE-DERIVED  and is a regression oracle only.             *)
+(* Trees may contain symbolic-link CYCLES (AllowCycles); what `follow` means there is stated as named rules in the    *)
+(* section FOLLOWING LINKS WHEN THE TREE HAS LINK CYCLES: the candidate list stays finite and TLC computes it.        *)
 EXTENDS Integers, Sequences, FiniteSets, FiniteSetsExt, SequencesExt, TLC
 
 CONSTANTS Names,          \* entry names available to the Add actions
           MaxNodes,       \* bound on the number of entries
-          AllowDangling   \* whether AddDanglingLink is enabled
+          AllowDangling,  \* whether AddDanglingLink is enabled
+          AllowCycles     \* whether AddLinkToDir may close a cycle (target = own directory, an ancestor, the working
+                          \* directory itself, a directory that links back)
 
 Sep == "/"
 (* TLC strings are atomic: "starts with a dot" is a table over every name any configuration uses *)
@@ -28,7 +32,8 @@ KnownNames  == HiddenNames \cup {"a", "b", "c", "d", "e", "skip", "b c", "n\nl",
 
 Kinds == {"file", "dir", "lfile", "ldir", "lnone"}
 (* an entry: its real path below the working directory (sequence of names), its kind, and for a link to a directory  *)
-(* the real path of the directory it points to.  lfile: link to a regular file outside the tree; lnone: dangling.    *)
+(* the real path of the directory it points to (<<>> = the working directory itself).  lfile: link to a regular file *)
+(* outside the tree; lnone: dangling.                                                                                  *)
 VARIABLE tree
 vars == <<tree>>
 
@@ -38,10 +43,14 @@ IsRealDir(p) == p = <<>> \/ (Has(p) /\ NodeAt(p).kind = "dir")
 Children(at) == {n \in tree : Len(n.path) = Len(at) + 1 /\ SubSeq(n.path, 1, Len(at)) = at}
 Name(n) == Last(n.path)
 
-(* directories reachable from real directory d through sub-directories and links to directories (tree is acyclic)  *)
-RECURSIVE Reach(_)
-Reach(d) == {d} \cup UNION { Reach(IF c.kind = "dir" THEN c.path ELSE c.target) :
-                              c \in {c \in Children(d) : c.kind \in {"dir", "ldir"}} }
+(* directories reachable from real directory d through sub-directories and links to directories: a closure, so that *)
+(* it is defined (and TLC terminates) on trees with link cycles too                                                   *)
+RealDirs == {<<>>} \cup {n.path : n \in {n \in tree : n.kind = "dir"}}
+DirStep(S) == S \cup UNION { {IF c.kind = "dir" THEN c.path ELSE c.target :
+                                 c \in {c \in Children(d) : c.kind \in {"dir", "ldir"}}} : d \in S }
+RECURSIVE DirClosure(_)
+DirClosure(S) == LET T == DirStep(S) IN IF T = S THEN S ELSE DirClosure(T)
+Reach(d) == DirClosure({d})
 
 -------------------------------------------------------------------------------
 (* Building the tree *)
@@ -54,10 +63,12 @@ Add(kind, parent, name, target) ==
 AddFile(parent, name)       == Add("file", parent, name, <<>>)
 AddDir(parent, name)        == Add("dir", parent, name, <<>>)
 AddLinkToFile(parent, name) == Add("lfile", parent, name, <<>>)
-(* link cycles are excluded: the new link may not make its own directory reachable from its target *)
-AddLinkToDir(parent, name)  == \E t \in {n \in tree : n.kind = "dir"} :
-                                   /\ parent \notin Reach(t.path)
-                                   /\ Add("ldir", parent, name, t.path)
+(* Without AllowCycles the new link may not make its own directory reachable from its target.  With AllowCycles the *)
+(* target is ANY real directory: the link's own directory (ln -s . l), an ancestor (ln -s .. l), the working          *)
+(* directory (= the default root), a directory that links back (a/l -> b, b/l -> a), a directory of another root.     *)
+AddLinkToDir(parent, name)  == \E t \in (IF AllowCycles THEN RealDirs ELSE RealDirs \ {<<>>}) :
+                                   /\ AllowCycles \/ parent \notin Reach(t)
+                                   /\ Add("ldir", parent, name, t)
 AddDanglingLink(parent, name) == AllowDangling /\ Add("lnone", parent, name, <<>>)
 
 Parents == {<<>>} \cup {n.path : n \in {n \in tree : n.kind = "dir"}}
@@ -72,9 +83,10 @@ Spec == Init /\ [][Next]_vars
 
 TypeOK == \A n \in tree : /\ n.kind \in Kinds /\ Len(n.path) >= 1
                           /\ IsRealDir(SubSeq(n.path, 1, Len(n.path) - 1))
-                          /\ (n.kind = "ldir") => (Has(n.target) /\ NodeAt(n.target).kind = "dir")
+                          /\ (n.kind = "ldir") => IsRealDir(n.target)
                           /\ \A m \in tree : m.path = n.path => m = n
 Acyclic == \A n \in tree : n.kind = "ldir" => SubSeq(n.path, 1, Len(n.path) - 1) \notin Reach(n.target)
+AcyclicUnlessAllowed == AllowCycles \/ Acyclic
 
 -------------------------------------------------------------------------------
 (* Walker options, skip patterns, roots *)
@@ -109,27 +121,63 @@ Dest(n) == IF n.kind = "dir" THEN n.path ELSE n.target
 ListsDirLike(n, o, dev) == IF dev /\ n.kind = "ldir" THEN o.file ELSE o.dir
 
 -------------------------------------------------------------------------------
-(* The walk.  An output entry is [p |-> printed components, d |-> marked as directory].                              *)
-RECURSIVE WalkDir(_, _, _, _, _), Entry(_, _, _, _, _)
-Entry(n, p, o, skips, dev) ==
+(* FOLLOWING LINKS WHEN THE TREE HAS LINK CYCLES  (rule names are referred to by the check and by DESIGN.md)          *)
+(*                                                                                                                    *)
+(* Documented (fzf): `follow` = follow symbolic links; without it a link is an entry of its own and is never entered. *)
+(* Documented (fastwalk, Config.Follow, which is what readFiles sets): "follow symbolic links ignoring directories    *)
+(* that would lead to infinite loops; that is, entering a previously visited directory that is an ancestor of the     *)
+(* last file encountered".  What the library does (fastwalk.go onDirEnt / shouldTraverse / shouldSkipDir, v1.0.10):   *)
+(*                                                                                                                    *)
+(*   RULE LinkListedThenJudged   the callback (= readFiles' filter: pruning, listing with the separator) runs for the *)
+(*       link BEFORE the library decides whether to enter it: a link that is not entered is still listed as a         *)
+(*       directory (unless pruned).                                                                                   *)
+(*   RULE RefuseRootAndLexicalAncestors   a link found under the printed path P (root argument + names) is entered    *)
+(*       unless the directory it resolves to is (os.SameFile) the walk root, or the directory that some LEXICAL       *)
+(*       ancestor of P resolves to: filepath.Dir is applied to P until it no longer changes, and every intermediate   *)
+(*       path is os.Stat'ed (so an ancestor that is itself a followed link counts as the directory it leads to).      *)
+(*       For a relative root "a/b" the lexical ancestors end with "a" and "." (the working directory); for an         *)
+(*       absolute root they go up to "/".  As every tree lives below the working directory, in both cases the set is  *)
+(*       anc = the real directories of all prefixes of P, the root and the directories above the root included.       *)
+(*   RULE RealSubdirsNotJudged  \* CODE-DERIVED   only links are judged.  A real sub-directory is always entered,     *)
+(*       also when the same real directory was already entered higher up through a link (l -> a/x/y, a/x/y/m -> a:    *)
+(*       l/m/x/y/ is walked although it is the directory l/ already stands for; its link m is then refused).  The     *)
+(*       walk is still finite: every entered link adds its target to anc for good, so along one printed path every    *)
+(*       link target is entered at most once and the depth is at most (links + 1) * (deepest real path).              *)
+(*   Several roots are independent walks (a link into another root is entered; that root's own walk lists the         *)
+(*   directory again under its own name).                                                                             *)
+(*                                                                                                                    *)
+(* Consequence kept apart from the property statement: a file below a followed link is listed once per ACCESS PATH    *)
+(* (already so without cycles); with mutually linking directories (a/l -> b, b/l -> a) that is a bounded repetition   *)
+(* (a/f, b/l/f; b/g, a/l/g; a/l/l/ and b/l/l/ listed but not entered), never an unbounded one.                        *)
+PathPrefixes(p) == {SubSeq(p, 1, k) : k \in 0..Len(p)}
+Refused(n, anc) == n.kind = "ldir" /\ n.target \in anc
+
+(* The walk.  An output entry is [p |-> printed components, d |-> marked as directory].  anc = the real directories   *)
+(* of the lexical ancestors of the entries of `at` (see RefuseRootAndLexicalAncestors).                               *)
+RECURSIVE WalkDir(_, _, _, _, _, _), Entry(_, _, _, _, _, _)
+Entry(n, p, o, skips, dev, anc) ==
     IF DirLike(n, o)
       THEN IF Pruned(p, o, skips) THEN <<>>
            ELSE (IF ListsDirLike(n, o, dev) THEN <<[p |-> p, d |-> TRUE]>> ELSE <<>>)
-                \o WalkDir(Dest(n), p, o, skips, dev)
+                \o (IF Refused(n, anc) THEN <<>>                                   \* listed, not entered
+                    ELSE WalkDir(Dest(n), p, o, skips, dev, anc \cup {Dest(n)}))
       ELSE IF o.file THEN <<[p |-> p, d |-> FALSE]>> ELSE <<>>     \* files, links to files, dangling links, and
                                                                      \* links to directories that are not followed
-WalkDir(at, shown, o, skips, dev) ==
-    FoldSet(LAMBDA n, acc : acc \o Entry(n, Append(shown, Name(n)), o, skips, dev), <<>>, Children(at))
+WalkDir(at, shown, o, skips, dev, anc) ==
+    FoldSet(LAMBDA n, acc : acc \o Entry(n, Append(shown, Name(n)), o, skips, dev, anc), <<>>, Children(at))
 
 (* A root: arg = the command-line argument, at = the real directory it denotes, shown = the components every path    *)
 (* below it is printed with (the argument without leading "./" and trailing separators; <<>> for ".").              *)
 Root(arg, at, shown) == [arg |-> arg, at |-> at, shown |-> shown]
 RootOK(r) == IsRealDir(r.at)
+RootAnc(r) == PathPrefixes(r.at)          \* the root itself, the directories between it and the working directory, and
+                                      \* the working directory
 WalkRoot(r, o, skips, dev) ==
-    IF r.shown = <<>> THEN WalkDir(r.at, <<>>, o, skips, dev)
+    IF r.shown = <<>> THEN WalkDir(r.at, <<>>, o, skips, dev, RootAnc(r))
     ELSE \* CODE-DERIVED: a root other than "." is itself an entry: pruned when hidden/skipped, listed with `dir`
          IF Pruned(r.shown, o, skips) THEN <<>>
-         ELSE (IF o.dir THEN <<[p |-> r.shown, d |-> TRUE]>> ELSE <<>>) \o WalkDir(r.at, r.shown, o, skips, dev)
+         ELSE (IF o.dir THEN <<[p |-> r.shown, d |-> TRUE]>> ELSE <<>>)
+              \o WalkDir(r.at, r.shown, o, skips, dev, RootAnc(r))
 
 RECURSIVE WalkRoots(_, _, _, _)
 WalkRoots(roots, o, skips, dev) ==
@@ -137,6 +185,17 @@ WalkRoots(roots, o, skips, dev) ==
 
 Expected(roots, o, skips)    == WalkRoots(roots, o, skips, FALSE)     \* the documented candidate list
 ExpectedDev(roots, o, skips) == WalkRoots(roots, o, skips, TRUE)      \* with deviation LinkDirAsFile
+
+(* The walk WITHOUT the refusal rule - what "follow every link to a directory" would mean.  Only defined on acyclic  *)
+(* trees (it does not terminate otherwise); used to state that the rule is invisible there.                           *)
+RECURSIVE FreeDir(_, _, _, _), FreeEntry(_, _, _, _)
+FreeEntry(n, p, o, skips) ==
+    IF DirLike(n, o)
+      THEN IF Pruned(p, o, skips) THEN <<>>
+           ELSE (IF o.dir THEN <<[p |-> p, d |-> TRUE]>> ELSE <<>>) \o FreeDir(Dest(n), p, o, skips)
+      ELSE IF o.file THEN <<[p |-> p, d |-> FALSE]>> ELSE <<>>
+FreeDir(at, shown, o, skips) ==
+    FoldSet(LAMBDA n, acc : acc \o FreeEntry(n, Append(shown, Name(n)), o, skips), <<>>, Children(at))
 
 (* printing *)
 RECURSIVE Join(_)
@@ -176,18 +235,46 @@ Resolves(es, o) == \A e \in Range(es) :
 PrunedDisjoint(es, o, skips) == \A e \in Range(es) :
     \A k \in 1..Len(e.p) : (k < Len(e.p) \/ e.d) => ~Pruned(SubSeq(e.p, 1, k), o, skips)
 (* completeness, stated declaratively: the list is exactly the set of access paths that are not at/below a pruned    *)
-(* directory and whose class is selected                                                                              *)
+(* directory, whose class is selected, and along which every ENTERED link obeys RefuseRootAndLexicalAncestors          *)
 UsedNames == {Name(n) : n \in tree}
-AccessPaths(o) == {p \in UNION {[1..k -> UsedNames] : k \in 1..Cardinality(tree)} : ResolveFrom(<<>>, p, o) # NoNode}
-Documented(o, skips) ==
+NLinks == Cardinality({n \in tree : n.kind = "ldir"})
+MaxLen == Max({Len(n.path) : n \in tree} \cup {0})
+DepthBound == (NLinks + 1) * MaxLen        \* see RealSubdirsNotJudged; Cardinality(tree) when there is no ldir
+RealDirOf(p, o) == IF p = <<>> THEN <<>> ELSE Dest(ResolveFrom(<<>>, p, o))
+(* the links that a walk printing p has ENTERED are those at the proper prefixes of p *)
+EntersLegally(p, o) == \A k \in 1..(Len(p) - 1) :
+    LET c == ResolveFrom(<<>>, SubSeq(p, 1, k), o) IN
+    c.kind = "ldir" => c.target \notin {RealDirOf(SubSeq(p, 1, j), o) : j \in 0..(k - 1)}
+(* access paths, level by level (the set is prefix-closed); the level after DepthBound must be empty *)
+NextLevel(P, o) == {q \in {Append(p, nm) : p \in P, nm \in UsedNames} :
+                      ResolveFrom(<<>>, q, o) # NoNode /\ EntersLegally(q, o)}
+RECURSIVE Levels(_, _, _)
+Levels(P, k, o) == IF k = 0 \/ P = {} THEN {} ELSE LET Q == NextLevel(P, o) IN Q \cup Levels(Q, k - 1, o)
+AccessPaths(o) == Levels({<<>>}, DepthBound, o)
+DocumentedFrom(ap, o, skips) ==
     { [p |-> p, d |-> DirLike(ResolveFrom(<<>>, p, o), o)] :
-        p \in { p \in AccessPaths(o) :
+        p \in { p \in ap :
                   LET n == ResolveFrom(<<>>, p, o) IN
                   /\ \A k \in 1..Len(p) : (k < Len(p) \/ DirLike(n, o)) => ~Pruned(SubSeq(p, 1, k), o, skips)
                   /\ (IF DirLike(n, o) THEN o.dir ELSE o.file) } }
-Complete(es, o, skips) == Range(es) = Documented(o, skips)
-DesignOK(o, skips) == LET es == Expected(Dot, o, skips) IN
-    ExactlyOnce(es) /\ Resolves(es, o) /\ PrunedDisjoint(es, o, skips) /\ Complete(es, o, skips)
+Documented(o, skips) == DocumentedFrom(AccessPaths(o), o, skips)
+Complete(es, ap, o, skips) == Range(es) = DocumentedFrom(ap, o, skips)
+(* link cycles: the list is finite with an explicit depth bound; no printed path enters the same link twice, nor a   *)
+(* link whose target it is already inside of; nothing beyond the bound would be legal either                          *)
+BoundedLaps(es, o) ==
+    /\ \A e \in Range(es) : Len(e.p) <= DepthBound /\ EntersLegally(e.p, o)
+    /\ \A e \in Range(es) : \A j, k \in 1..(Len(e.p) - 1) :
+          LET a == ResolveFrom(<<>>, SubSeq(e.p, 1, j), o)
+              b == ResolveFrom(<<>>, SubSeq(e.p, 1, k), o)
+          IN  (j < k /\ a.kind = "ldir" /\ b.kind = "ldir") => a.target # b.target
+NothingBeyondBound(ap, o) == NextLevel({p \in ap : Len(p) = DepthBound}, o) = {}
+(* the refusal rule is invisible on trees without link cycles: there the list is "follow every link" *)
+RuleInvisibleWhenAcyclic(o, skips) == Acyclic => Expected(Dot, o, skips) = FreeDir(<<>>, <<>>, o, skips)
+(* ap = AccessPaths(o): it does not depend on the skip list, so the caller computes it once per option set *)
+DesignOKFrom(ap, o, skips) == LET es == Expected(Dot, o, skips) IN
+    /\ ExactlyOnce(es) /\ Resolves(es, o) /\ PrunedDisjoint(es, o, skips) /\ Complete(es, ap, o, skips)
+    /\ BoundedLaps(es, o) /\ RuleInvisibleWhenAcyclic(o, skips)
+DesignOK(o, skips) == LET ap == AccessPaths(o) IN NothingBeyondBound(ap, o) /\ DesignOKFrom(ap, o, skips)
 (* option algebra: file and dir select disjoint classes; hidden only adds; a skip pattern only removes; the named    *)
 (* deviation is invisible unless a link to a directory is followed                                                    *)
 Algebra(o, skips) ==
@@ -196,6 +283,10 @@ Algebra(o, skips) ==
     /\ R([o EXCEPT !.hidden = FALSE], skips) \subseteq R([o EXCEPT !.hidden = TRUE], skips)
     /\ R(o, skips) \subseteq R(o, {})
     /\ (Expected(Dot, o, skips) # ExpectedDev(Dot, o, skips)) => (o.follow /\ \E n \in tree : n.kind = "ldir")
-(* a non-"." root: everything printed starts with the root's components *)
-UnderRoot(r, o, skips) == \A e \in Range(Expected(<<r>>, o, skips)) : SubSeq(e.p, 1, Len(r.shown)) = r.shown
+(* a non-"." root: everything printed starts with the root's components, once, within the depth bound; a link back   *)
+(* to the root, to a directory between the root and the working directory, or to the working directory is listed and *)
+(* not entered                                                                                                        *)
+UnderRoot(r, o, skips) == LET es == Expected(<<r>>, o, skips) IN
+    /\ \A e \in Range(es) : SubSeq(e.p, 1, Len(r.shown)) = r.shown /\ Len(e.p) <= Len(r.shown) + DepthBound
+    /\ ExactlyOnce(es)
 ================================================================================
